@@ -123,6 +123,30 @@ class WHook:
                                        dict(kind="wstat", accessor="mean_curve_peak", cv=cv, state=sline["s"], inst=inst.name()))
                 elif gi > 0:
                     self.cmp("mean_curve_peak amplitude", a, inst.a_mean(mc[gi - 1]), sline, cv, inst)
+            # "nothing depends on rejected windows": a fresh object holding only the accepted windows (so the azimuths
+            # have DIFFERENT numbers of windows and none is rejected) has the statistics of this state
+            s = sline["s"]
+            if self.na >= 2 and all(any(rv) for rv in s["vw"]) and any(not v for rv in s["vw"] for v in rv) and \
+                    all(vp_ == vw_ and (p != 0 or not vw_) for rv, rp, rk in zip(s["vw"], s["vp"], s["pk"]) for vw_, vp_, p in zip(rv, rp, rk)):
+                trads = []
+                for a_i in range(self.na):
+                    rows = np.array([inst.amp(real.alphabet[c - 1]) for c, keep in zip(cv[a_i], s["vw"][a_i]) if keep])
+                    t_ = self.h.HvsrTraditional(inst.freq, rows, meta={"processing_method": "traditional"})
+                    trads.append(t_)
+                comp = self.h.HvsrAzimuthal(trads, list(obj.azimuths), meta={"processing_method": "azimuthal"})
+                comp.update_peaks_bounded(search_range_in_hz=(inst.hz(s["r"][0]), inst.hz(s["r"][1])))
+                self.compacted = getattr(self, "compacted", 0) + 1
+                if len({sum(rv) for rv in s["vw"]}) > 1:
+                    self.compacted_unequal = getattr(self, "compacted_unequal", 0) + 1
+                if w["okc"]:
+                    mc = [rat(x) for x in w["mc"]]
+                    vc = [rat(x) for x in w["vc"]]
+                    d = inst.dist_a
+                    self.call(f"compacted:mean_curve[{d}]", lambda: comp.mean_curve(d), [inst.a_mean(m) for m in mc], sline, cv, inst)
+                    self.call(f"compacted:std_curve[{d}]", lambda: comp.std_curve(d), [inst.a_std(v) for v in vc], sline, cv, inst)
+                if w["ok"]:
+                    self.call(f"compacted:mean_fn_frequency[{inst.dist_f}]", lambda: comp.mean_fn_frequency(inst.dist_f), inst.f_mean(rat(w["mf"])), sline, cv, inst)
+                    self.call(f"compacted:std_fn_frequency[{inst.dist_f}]", lambda: comp.std_fn_frequency(inst.dist_f), inst.f_std(rat(w["vf"])), sline, cv, inst)
             # per-azimuth views are the traditional statistics of that azimuth
             azs = sline["az"]
             if all(a_["ncv"] >= 2 for a_ in azs):
@@ -160,6 +184,15 @@ def main():
         rp.replay(hvsrobj.Instance(6, fenc, aenc), state_hook=hook, step_hook=hook.light)
     rp.validate_pending()
     run.notes["replay_NA2"] = rp.stats
+    # the sampled assignments often repeat a curve; one assignment with pairwise different curves on and across the azimuths
+    exd = hvsrobj.cfg_text(2, nw, 6, alpha, "Ranges6s", "NSetA", "MaxItsA", "InitDistinct", export=True)
+    resd, graphd = hvsrobj.export_graph(exd, "C11-distinct", {}, timeout=3000)
+    run.add_tlc(resd, "HvsrObject NA=2 export from InitDistinct (curves 1,2,3 / 3,4,5)")
+    rpd = hvsrobj.Replayer(run, hvsrpy, graphd, ALPHA6[:alpha_n], 2, nw, 6, consts, focus={"Init"})
+    for fenc, aenc in (("N", "N"), ("L", "L"), ("N", "L"), ("L", "N")):
+        rpd.replay(hvsrobj.Instance(6, fenc, aenc), state_hook=hook, step_hook=hook.light)
+    rpd.validate_pending()
+    run.notes["replay_NA2_distinct"] = rpd.stats
 
     # NA = 1: the weighted accessors of a one-azimuth object against the exact traditional statistics
     ex1 = hvsrobj.cfg_text(1, 3, 6, "Alpha6a", "Ranges6", "NSetA", "MaxItsA", "InitEnv", export=True)
@@ -173,6 +206,10 @@ def main():
     rp1.validate_pending()
     run.notes["replay_NA1"] = rp1.stats
     run.notes["accessor_comparisons"] = hook.n + hook1.n
+    run.notes["compacted_objects_compared"] = getattr(hook, "compacted", 0)
+    run.notes["compacted_objects_with_unequal_counts"] = getattr(hook, "compacted_unequal", 0)
+    if getattr(hook, "compacted_unequal", 0) == 0:
+        raise Exception("non-vacuity failed: no state with unequal accepted counts was rebuilt without its rejected windows")
     return run.finish(
         rule="every transition of the exported HvsrObject graph with 2 azimuths x 3 windows replayed on real "
              "HvsrAzimuthal objects; in every state all weighted accessors compared with the exact Cheng-weighted "
